@@ -295,6 +295,9 @@ pub enum Repr {
     Refilled { junk: Vec<u8> },
     /// first part + junk collected, `truncate(split)`, then the rest extended
     TruncExtend { split: u16, junk: Vec<u8> },
+    /// one of the owned sequences obtained by collecting an iterator of borrowed windows of a parent
+    /// into `Vec<Seq<_>>` (`FromIterator<&SeqSlice>`): the window starts `pre` symbols into the parent
+    CollectedSlices { pre: Vec<u8>, post: Vec<u8> },
     /// static literal from the compiled-in pool (codes must equal the pool entry)
     Static(u8),
     /// `Seq::from(BitVec)` (the unstable constructor) of a bit vector whose live bits start
@@ -326,6 +329,7 @@ impl Repr {
             Repr::FromBitSlice { .. } => "from_bitslice",
             Repr::Refilled { .. } => "refilled",
             Repr::TruncExtend { .. } => "trunc_extend",
+            Repr::CollectedSlices { .. } => "collected_slices",
             Repr::Static(_) => "static",
             Repr::RawBitVec { .. } => "raw_bitvec",
         }
@@ -343,7 +347,7 @@ impl Repr {
     /// symbols in front of the content in the slice an owned value was copied from
     pub fn born_offset(&self) -> usize {
         match self {
-            Repr::OffsetOwned { pre, .. } | Repr::OffsetClone { pre, .. } | Repr::AndSelf { pre, .. } | Repr::OrSelf { pre, .. } | Repr::ToRev2 { pre } | Repr::InsertedIntoEmpty { pre, .. } | Repr::Appended { pre, .. } | Repr::Prepended { pre, .. } => pre.len(),
+            Repr::OffsetOwned { pre, .. } | Repr::OffsetClone { pre, .. } | Repr::AndSelf { pre, .. } | Repr::OrSelf { pre, .. } | Repr::ToRev2 { pre } | Repr::InsertedIntoEmpty { pre, .. } | Repr::Appended { pre, .. } | Repr::Prepended { pre, .. } | Repr::CollectedSlices { pre, .. } => pre.len(),
             _ => 0,
         }
     }
@@ -542,6 +546,14 @@ fn build_raw<C: Cm>(sy: &Syms<C>, spec: &SeqSpec) -> R<Built<C>> {
             let pre = sane(m, pre);
             let p = sy.seq(&cat(&[&pre, &codes]));
             Built::Owned(p[pre.len()..].to_rev().to_rev())
+        }
+        Repr::CollectedSlices { pre, post } => {
+            let (pre, post) = (sane(m, pre), sane(m, post));
+            let p = sy.seq(&cat(&[&pre, &codes, &post]));
+            // three borrowed windows of the parent, collected into owned sequences; the middle one is ours
+            let windows: Vec<&SeqSlice<C>> = vec![&p[..pre.len()], &p[pre.len()..pre.len() + n], &p[pre.len() + n..]];
+            let mut owned: Vec<Seq<C>> = windows.into_iter().collect();
+            Built::Owned(owned.swap_remove(1))
         }
         Repr::Edited { junk, at } => {
             let junk = sane(m, junk);
